@@ -12,26 +12,58 @@ namespace TB
 theorem C08_sound (inp : Bytes) (t : Tok) (h : decode inp = .ok t) :
     canon (erase t) = true ∧ encode (erase t) = inp ∧ spansExact inp t = true
       ∧ t.start = 0 ∧ t.cont = inp.length := by
-  sorry
+  unfold decode at h
+  cases hd : decodeAny (2 * inp.length + 2) inp 0 with
+  | err => simp [hd] at h
+  | panic => simp [hd] at h
+  | ok x =>
+    obtain ⟨t', r⟩ := x
+    cases r with
+    | cons b r' => simp [hd] at h
+    | nil =>
+      simp only [hd, Res.ok.injEq] at h
+      subst h
+      obtain ⟨e1, e2, e3, e4, e5⟩ := decodeAny_sound hd
+      rw [List.append_nil] at e1
+      refine ⟨e4, e1.symm, e5 inp (At.zero inp), e2, ?_⟩
+      rw [e3, ← e1, Nat.zero_add]
 
 /-- completeness: the encoding of every canonical value is accepted and decodes to that value -/
 theorem C08_complete (v : BVal) (h : canon v = true) :
     ∃ t, decode (encode v) = .ok t ∧ erase t = v := by
-  sorry
+  obtain ⟨t, e1, e2, _⟩ := decodeAny_complete v [] 0 (2 * (encode v).length + 2) h (by omega)
+  rw [List.append_nil] at e1
+  exact ⟨t, by simp [decode, e1], e2⟩
 
 /-- the decoder accepts a byte string iff it is exactly one canonical bencoded value -/
 theorem C08_accepts_iff (inp : Bytes) :
     (∃ t, decode inp = .ok t) ↔ ∃ v, canon v = true ∧ encode v = inp := by
-  sorry
+  constructor
+  · rintro ⟨t, h⟩
+    obtain ⟨h1, h2, _⟩ := C08_sound inp t h
+    exact ⟨erase t, h1, h2⟩
+  · rintro ⟨v, hc, rfl⟩
+    obtain ⟨t, h, _⟩ := C08_complete v hc
+    exact ⟨t, h⟩
 
 /-- canonical encoding is injective (so "the value it denotes" is well defined) -/
 theorem C08_encode_injective (v w : BVal) (hv : canon v = true) (hw : canon w = true)
     (h : encode v = encode w) : v = w := by
-  sorry
+  obtain ⟨t1, d1, e1⟩ := C08_complete v hv
+  obtain ⟨t2, d2, e2⟩ := C08_complete w hw
+  rw [h, d2, Res.ok.injEq] at d1
+  rw [← e1, ← e2, d1]
 
 /-- decoding never panics (no unchecked arithmetic, no out-of-range slice) -/
 theorem C08_no_panic (inp : Bytes) : decode inp ≠ .panic := by
-  sorry
+  unfold decode
+  have := decodeAny_no_panic (2 * inp.length + 2) inp 0
+  cases hd : decodeAny (2 * inp.length + 2) inp 0 with
+  | err => simp
+  | panic => exact absurd hd this
+  | ok x =>
+    obtain ⟨t, r⟩ := x
+    cases r <;> simp
 
 -- non-vacuity: a nested canonical value with a dictionary, a negative integer and an empty string
 example : canon (.dict [([97], .int (-5)), ([98], .list [.str [], .int 0])]) = true := by decide
